@@ -16,6 +16,7 @@ Anything outside the supported AST subset raises TranslationError: the obligatio
 search.
 """
 import ast
+import re
 import inspect
 import json
 import os
@@ -524,32 +525,35 @@ def gen_reader_seek(out):
     out.append("")
 
 
-def gen_funs():
-    out = [
-        "/- GENERATED by translator/py2lean.py from the live laspy package. Do not edit. -/",
-        "namespace Gen",
-        "",
-    ]
-    flags = gen_global_encoding(out)
+def unit_ge():
+    out = []
+    gen_global_encoding(out)
+    return "\n".join(out)
 
+
+def unit_compression():
     from laspy._compression import format as cfmt
-
-    out.append("namespace Compression")
+    out = ["namespace Compression"]
     for name in ("is_point_format_compressed", "compressed_id_to_uncompressed", "uncompressed_id_to_compressed"):
         gen_free_function(out, getattr(cfmt, name), [("point_format_id", "Nat")])
     out.append("end Compression")
     out.append("")
+    return "\n".join(out)
 
+
+def unit_dims():
     from laspy.point import dims
-
-    out.append("namespace Dims")
+    out = ["namespace Dims"]
     gen_free_function(out, dims.preferred_file_version_for_point_format, [("point_format_id", "Nat")])
     out.append("end Dims")
     out.append("")
+    return "\n".join(out)
 
+
+def unit_copc():
     # VoxelKey.child: assignments to key.<f> of expressions over self.<f>, dir
     from laspy.copc import VoxelKey
-
+    out = []
     fd = get_funcdef(VoxelKey.child)
     fields = {}
     ctx = Ctx({}, {"level": "level", "x": "x", "y": "y", "z": "z"}, {}, {"dir": "Nat"})
@@ -573,9 +577,16 @@ def gen_funs():
     out.append("  { level := " + fields["level"] + ", x := " + fields["x"] + ", y := " + fields["y"] + ", z := " + fields["z"] + " }")
     out.append("end Copc")
     out.append("")
+    return "\n".join(out)
+
+
+def unit_reader():
+    out = []
     gen_reader_seek(out)
-    out.append("end Gen")
-    return "\n".join(out) + "\n", {"ge_flags": flags}
+    return "\n".join(out)
+
+
+FUN_UNITS = [("GE", unit_ge), ("Compression", unit_compression), ("Dims", unit_dims), ("Copc", unit_copc), ("Reader", unit_reader)]
 
 
 # --------------------------------------------------------------------------
@@ -591,7 +602,11 @@ def lean_list(items):
     return "[" + ", ".join(items) + "]"
 
 
-def gen_tables():
+def _t_prelude():
+    return None
+
+
+def tunit_dims():
     import numpy as np
     import laspy
     from laspy import header as H
@@ -599,17 +614,12 @@ def gen_tables():
     from laspy.point import dims, packing
     from laspy.point.format import PointFormat
     from laspy.vlrs import vlrlist, known
-
-    out = [
-        "/- GENERATED by translator/py2lean.py from the live laspy package. Do not edit. -/",
-        "namespace Gen",
-        "",
-        "/-- kind of a dimension: 0 = signed int, 1 = unsigned int, 2 = float -/",
-        "abbrev Kind := Nat",
-        "",
-    ]
     kind_id = {"i": 0, "u": 1, "f": 2}
     fmts = sorted(dims.POINT_FORMAT_DIMENSIONS.keys())
+    out = []
+    out.append("/-- kind of a dimension: 0 = signed int, 1 = unsigned int, 2 = float -/")
+    out.append("abbrev Kind := Nat")
+    out.append("")
     out.append("def formatIds : List Nat := " + lean_list(map(str, fmts)))
 
     # dimension name -> (kind, itemsize)
@@ -644,6 +654,20 @@ def gen_tables():
         out.append(f"  | {f} => {dims.ALL_POINT_FORMATS_DTYPE[f].itemsize}")
     out.append("  | _ => 0")
 
+    return "\n".join(out)
+
+
+def tunit_composed():
+    import numpy as np
+    import laspy
+    from laspy import header as H
+    from laspy import extradims
+    from laspy.point import dims, packing
+    from laspy.point.format import PointFormat
+    from laspy.vlrs import vlrlist, known
+    kind_id = {"i": 0, "u": 1, "f": 2}
+    fmts = sorted(dims.POINT_FORMAT_DIMENSIONS.keys())
+    out = []
     # composed fields
     out.append("/-- packed byte name ↦ [(sub-field name, mask)] per point format -/")
     out.append("def composed : Nat → List (String × List (String × Nat))")
@@ -664,6 +688,20 @@ def gen_tables():
     out.append("/-- dims.num_bit_set evaluated on every mask in `composed` -/")
     out.append("def bitCountTable : List (Nat × Nat) := " + lean_list(f"({m}, {dims.num_bit_set(m)})" for m in masks))
 
+    return "\n".join(out)
+
+
+def tunit_versions():
+    import numpy as np
+    import laspy
+    from laspy import header as H
+    from laspy import extradims
+    from laspy.point import dims, packing
+    from laspy.point.format import PointFormat
+    from laspy.vlrs import vlrlist, known
+    kind_id = {"i": 0, "u": 1, "f": 2}
+    fmts = sorted(dims.POINT_FORMAT_DIMENSIONS.keys())
+    out = []
     # versions
     vers = sorted(dims.VERSION_TO_POINT_FMT.keys())
     def vminor(v):
@@ -681,11 +719,39 @@ def gen_tables():
     out.append(f"def defaultPointFormat : Nat := {H.LasHeader.DEFAULT_POINT_FORMAT.id}")
     out.append(f"def minFormatForVersion : List (Nat × Nat) := " + lean_list(f"({vminor(v)}, {dims.min_point_format_for_version(v)})" for v in vers))
 
+    return "\n".join(out)
+
+
+def tunit_vlr():
+    import numpy as np
+    import laspy
+    from laspy import header as H
+    from laspy import extradims
+    from laspy.point import dims, packing
+    from laspy.point.format import PointFormat
+    from laspy.vlrs import vlrlist, known
+    kind_id = {"i": 0, "u": 1, "f": 2}
+    fmts = sorted(dims.POINT_FORMAT_DIMENSIONS.keys())
+    out = []
     # VLR constants
     out.append(f"def VLR_USER_ID_LEN : Nat := {vlrlist.USER_ID_LEN}")
     out.append(f"def VLR_DESCRIPTION_LEN : Nat := {vlrlist.DESCRIPTION_LEN}")
     out.append(f"def VLR_RESERVED_LEN : Nat := {vlrlist.RESERVED_LEN}")
 
+    return "\n".join(out)
+
+
+def tunit_extra():
+    import numpy as np
+    import laspy
+    from laspy import header as H
+    from laspy import extradims
+    from laspy.point import dims, packing
+    from laspy.point.format import PointFormat
+    from laspy.vlrs import vlrlist, known
+    kind_id = {"i": 0, "u": 1, "f": 2}
+    fmts = sorted(dims.POINT_FORMAT_DIMENSIONS.keys())
+    out = []
     # extra-bytes type table: index = type id - 1 ↦ (kind, elem size, n elems)
     rows = []
     for dt in extradims._allowed_extra_dims_types:
@@ -708,17 +774,47 @@ def gen_tables():
     for cname in ("NO_DATA_BIT_MASK", "MIN_BIT_MASK", "MAX_BIT_MASK", "SCALE_BIT_MASK", "OFFSET_BIT_MASK"):
         out.append(f"def EB_{cname} : Nat := {getattr(known.ExtraBytesStruct, cname)}")
 
+    return "\n".join(out)
+
+
+def tunit_gemasks():
+    import numpy as np
+    import laspy
+    from laspy import header as H
+    from laspy import extradims
+    from laspy.point import dims, packing
+    from laspy.point.format import PointFormat
+    from laspy.vlrs import vlrlist, known
+    kind_id = {"i": 0, "u": 1, "f": 2}
+    fmts = sorted(dims.POINT_FORMAT_DIMENSIONS.keys())
+    out = []
     # global encoding masks (also in Funs, here as a table for the spec comparison)
     out.append("def geMasks : List (String × Nat) := " + lean_list(
         f"({lean_str(n)}, {getattr(H.GlobalEncoding, n)})" for n in sorted(vars(H.GlobalEncoding)) if n.endswith("_MASK")))
 
+    return "\n".join(out)
+
+
+def tunit_copc():
+    import numpy as np
+    import laspy
+    from laspy import header as H
+    from laspy import extradims
+    from laspy.point import dims, packing
+    from laspy.point.format import PointFormat
+    from laspy.vlrs import vlrlist, known
+    kind_id = {"i": 0, "u": 1, "f": 2}
+    fmts = sorted(dims.POINT_FORMAT_DIMENSIONS.keys())
+    out = []
     # COPC struct formats
     from laspy import copc
     out.append(f"def copcVoxelKeyFormat : String := {lean_str(copc.VoxelKey.unpacker.format)}")
     out.append(f"def copcEntryFormat : String := {lean_str(copc.Entry.unpacker.format)}")
-    out.append("")
-    out.append("end Gen")
-    return "\n".join(out) + "\n"
+    return "\n".join(out)
+
+
+TABLE_UNITS = [("TDims", tunit_dims), ("TComposed", tunit_composed), ("TVersions", tunit_versions), ("TVlr", tunit_vlr),
+               ("TExtra", tunit_extra), ("TGeMasks", tunit_gemasks), ("TCopc", tunit_copc)]
 
 
 def write_if_changed(path, text):
@@ -736,17 +832,47 @@ def write_if_changed(path, text):
     return True
 
 
-def main():
-    status = {"ok": True, "errors": [], "changed": []}
-    for name, gen in (("Tables", gen_tables), ("Funs", lambda: gen_funs()[0])):
+HEADER = "/- GENERATED by translator/py2lean.py from the live laspy package. Do not edit. -/\nnamespace Gen\n"
+FOOTER = "end Gen\n"
+
+
+def split_units(text):
+    """unit name -> text between its markers in a previously generated file"""
+    units = {}
+    for m in re.finditer(r"-- BEGIN UNIT (\w+)\n(.*?)-- END UNIT \1\n", text, re.S):
+        units[m.group(1)] = m.group(2)
+    return units
+
+
+def generate(file_name, unit_list, status):
+    """every unit is generated on its own; a unit that cannot be regenerated (translation or introspection failure)
+    keeps the text it has in the existing file, so that the properties which do not depend on it still build, and is
+    reported as failed, so that the properties which do depend on it are reported as no longer shown to hold"""
+    path = os.path.join(GEN_DIR, file_name + ".lean")
+    try:
+        old_units = split_units(open(path).read())
+    except FileNotFoundError:
+        old_units = {}
+    parts = [HEADER]
+    for name, gen in unit_list:
         try:
-            text = gen()
+            text = gen().rstrip("\n") + "\n"
+            status["units"][name] = {"ok": True}
         except Exception as e:  # TranslationError or introspection failure
             status["ok"] = False
             status["errors"].append(f"{name}: {type(e).__name__}: {e}")
-            continue
-        if write_if_changed(os.path.join(GEN_DIR, name + ".lean"), text):
-            status["changed"].append(name)
+            status["units"][name] = {"ok": False, "error": f"{type(e).__name__}: {e}"[:500], "stale": name in old_units}
+            text = old_units.get(name, "")
+        parts.append(f"-- BEGIN UNIT {name}\n{text}-- END UNIT {name}\n")
+    parts.append(FOOTER)
+    if write_if_changed(path, "\n".join(parts)):
+        status["changed"].append(file_name)
+
+
+def main():
+    status = {"ok": True, "errors": [], "changed": [], "units": {}}
+    generate("Tables", TABLE_UNITS, status)
+    generate("Funs", FUN_UNITS, status)
     print(json.dumps(status))
     return 0 if status["ok"] else 3
 
